@@ -24,7 +24,7 @@ PROPS = ['C08']
 OPS = [(10, 'cset'), (4, 'cdel'), (3, 'cpop'), (4, 'cupdate'), (2, 'cclear'), (2, 'csetdefault'),
        (5, 'aset'), (3, 'adel'), (2, 'aupdate'), (1, 'aclear'),
        (7, 'dump'), (5, 'dump_k'), (7, 'load'), (5, 'load_k'), (5, 'sync'), (3, 'sync_clear'),
-       (3, 'archived'), (4, 'off'), (4, 'on'), (2, 'open'), (1, 'drop'), (2, 'advance'), (2, 'popkeys')]
+       (3, 'archived'), (3, 'akeys'), (4, 'off'), (4, 'on'), (2, 'open'), (1, 'drop'), (2, 'advance'), (2, 'popkeys')]
 
 
 def generate(rng, prop, tier):
@@ -272,6 +272,14 @@ def execute(case, prop, ctx):
                         att.update(mem)
                 elif kind == 'archived':
                     pass
+                elif kind == 'akeys':
+                    # a bare key listing of the attached archive (no value is read): what a user does before load(k)
+                    got = call(lambda: list(c.archive.keys()) if step % 2 else list(iter(c.archive)))
+                    want = att if att is not None else {}
+                    if got[0] != 'ok' or not same_dict(dict((k, 0) for k in got[1]), dict((k, 0) for k in want)):
+                        raise Mismatch('archive-keys', 'keys of the attached archive: %s, model %s'
+                                       % (show(got[1]) if got[0] == 'ok' else got, show(sorted(map(show, want)))))
+                    bump(probes, 'bare-key-listing')
                 elif kind == 'off':
                     c.archived(False)
                     if attached is not None and not isnull[attached]:
